@@ -55,7 +55,17 @@ ASSUMPTIONS = [
     "finite differences (central, step 1e-5) approximate the derivative of the reported cost to 1e-6 relative",
     "Fock-space truncation tails of the low-energy states generated are bounded using the reference state's own truncated mass",
 ]
-MANIFEST_TEXT = "see coq/Properties/C20.v"
+MANIFEST_TEXT = (
+    "Proof (Coq, over R via Coquelicot, stdlib real axioms): full theorems C20_jacobian (ExpFeatures.jacobian is the derivative of "
+    "weights, all shapes), C20_kl_chain and C20_stochastic_chain (KL.grad / Stochastic.grad are the partial derivatives of the "
+    "reported costs in PNR mode for all feature matrices, data sets, parameters, given the GBS score identity at the point as an "
+    "explicit hypothesis), C20_score_identity_product (that hypothesis holds for product states), C20_dynamics_passive/_modes/_group "
+    "(TimeEvolution conserves every mode's photon number for all n, w, t, states; acts once on each mode; angles additive in t), "
+    "C20_vibronic_gain_is_inverse, C20_orbit_click_ok, C20_sample_length; _refuted theorems for the three recorded findings. "
+    "_partial: the score identity for general A (C20_score_identity_statement), normalisation of probabilities, state/moment "
+    "agreement, Duschinsky round trip and SVD are outside the theorems and covered by the implementation-level search "
+    "(finite differences, closed-form reference states, differential torontonian-vs-hafnian, cross-module, Doktorov reference)."
+)
 
 HBAR = 2.0
 TOL = 1e-8
@@ -189,10 +199,15 @@ def gen_train(rng, big=False):
         d = rng.choice([1, 2, 3, 4])
         F = np.array([[rng.choice([0.0, 1.0, -0.5, 0.5, 2.0]) if rng.random() < 0.5 else round(rng.gauss(0, 1), 3) for _ in range(d)] for _ in range(n)])
         emb = {"kind": "feat", "F": _lst(F)}
+    # the trained matrix W A W must still describe a state: singular values below one (with margin)
+    try:
+        A0 = tparam.rescale_adjacency(A, n_mean, threshold)
+    except Exception:  # noqa: BLE001
+        A0 = None
     for _ in range(20):
         theta = np.array([rng.choice([0.0, 0.1, -0.1, 0.5]) if rng.random() < 0.4 else round(rng.uniform(-0.4, 0.9), 3) for _ in range(d)])
         w = np.exp(-F @ theta)
-        if np.max(w) < 1.6 and np.min(w) > 0.15:
+        if np.max(w) < 1.6 and np.min(w) > 0.15 and A0 is not None and np.linalg.norm(np.sqrt(np.outer(w, w)) * A0, 2) < 0.92:
             break
     else:
         theta = np.zeros(d)
@@ -294,6 +309,10 @@ def nontrivial(case):
         return case["Li"] != case["Lf"]
     if f == "marg":
         return case["n"] >= 2 and any(c[0] == "BS" for c in case["cmds"])
+    if f == "orb":
+        return len(case["orbit"]) >= case["modes"]
+    if f == "dim":
+        return case["d"] != case["len"]
     return False
 
 
@@ -883,17 +902,99 @@ def corr_dus(case):
 def corr_vib(case):
     w, wp = np.array(case["w"]), np.array(case["wp"])
     Ud, delta = np.array(case["Ud"]), np.array(case["delta"])
+    n = len(w)
     with SvdSpy() as spy:
         t, U1, r, U2, alpha = vibronic.gbs_params(w, wp, Ud, delta, case["T"])
     handed = spy.args[0] if spy.args else None
-    term = "(dusch_J FO %s %s %s, vib_alpha FO %s %s)" % (cvec(wp ** 0.5), cvec(w ** -0.5), cmat(Ud), cf(np.sqrt(2)), cvec(delta))
-    return term, [("matrix handed to np.linalg.svd", handed, 1e-12, None), ("alpha", alpha, 1e-12, None)]
+    tt = np.array(case["tmix"]) if case.get("tmix") else t
+    slen = None
+    if n <= 2:
+        np.random.seed(case["np_seed"])
+        smp = vibronic.sample(tt, U1, np.clip(r, -0.3, 0.3), U2, np.clip(alpha, -0.5, 0.5), 1)
+        slen = len(smp[0])
+    term = "(dusch_J FO %s %s %s, vib_alpha FO %s %s, sample_len %s)" % (
+        cvec(wp ** 0.5), cvec(w ** -0.5), cmat(Ud), cf(np.sqrt(2)), cvec(delta), coq.coq_list([coq.coq_bool(bool(x == 0)) for x in tt]))
+    return term, [("matrix handed to np.linalg.svd", handed, 1e-12, None), ("alpha", alpha, 1e-12, None),
+                  ("entries per sample of vibronic.sample", slen, 0, "exact" if slen is not None else "skip")]
 
 
-CORR = {"train": corr_train, "dyn": corr_dyn, "dus": corr_dus, "vib": corr_vib}
+def gen_orb(rng):
+    modes = rng.choice([2, 3, 4])
+    N = rng.choice([1, 2, 3, 4, 5])
+    orbit = rng.choice(list(partitions(N)))
+    return {"family": "orb", "modes": modes, "orbit": orbit, "n_mean": round(rng.uniform(0.5, 2), 2)}
+
+
+def corr_orb(case):
+    g = nx.complete_graph(case["modes"])
+    try:
+        similarity.prob_orbit_exact(g, list(case["orbit"]), n_mean=case["n_mean"])
+        ok = True
+    except ValueError:
+        ok = False
+    term = "(orbit_ok %s %d, 0%%float)" % (cnats(case["orbit"]), case["modes"])
+    return term, [("prob_orbit_exact accepts the orbit", ok, 0, "exact"), ("pad", 0.0, 1e-12, None)]
+
+
+def check_orb(case):
+    g = nx.complete_graph(case["modes"])
+    try:
+        p = similarity.prob_orbit_exact(g, list(case["orbit"]), n_mean=case["n_mean"])
+    except ValueError as e:
+        if len(case["orbit"]) > case["modes"]:
+            return [("similarity:event-orbit-longer-than-modes", "prob_orbit_exact(%r) on %d modes raises %r instead of returning 0" % (case["orbit"], case["modes"], e))]
+        return [("similarity:orbit-raises:ValueError", "prob_orbit_exact(%r) on %d modes raised %r" % (case["orbit"], case["modes"], e))]
+    if len(case["orbit"]) > case["modes"] and abs(p) > 1e-12:
+        return [("similarity:orbit-prob", "an orbit with more parts than modes has probability %r" % (p,))]
+    return []
+
+
+GENS["orb"] = gen_orb
+CHECKS["orb"] = check_orb
+
+
+def gen_dim(rng):
+    d = rng.choice([1, 2, 3])
+    return {"family": "dim", "m": rng.choice([1, 2, 3]), "d": d, "len": rng.choice([d, d, d - 1, d + 1, 0, 4])}
+
+
+def _dim_impl(case):
+    e = tembed.ExpFeatures(np.ones((case["m"], case["d"])))
+    res = []
+    for fn in (e.weights, e.jacobian):
+        try:
+            fn(np.zeros(case["len"]))
+            res.append(True)
+        except ValueError:
+            res.append(False)
+    return res
+
+
+def corr_dim(case):
+    res = _dim_impl(case)
+    term = "(weights_guard %d %s, weights_guard %d %s)" % (case["d"], cvec(np.zeros(case["len"])), case["d"], cvec(np.zeros(case["len"])))
+    return term, [("weights accepts the parameter vector", res[0], 0, "exact"), ("jacobian accepts the parameter vector", res[1], 0, "exact")]
+
+
+def check_dim(case):
+    res = _dim_impl(case)
+    want = case["d"] == case["len"]
+    if res != [want, want]:
+        return [("malformed:embed-dim", "ExpFeatures with %d-dimensional features and %d parameters: weights/jacobian accepted = %r" % (case["d"], case["len"], res))]
+    return []
+
+
+GENS["dim"] = gen_dim
+CHECKS["dim"] = check_dim
+
+CORR = {"train": corr_train, "dyn": corr_dyn, "dus": corr_dus, "vib": corr_vib, "orb": corr_orb, "dim": corr_dim}
 
 
 def _cmp_corr(name, model, impl, tol, mode):
+    if mode == "skip":
+        return True
+    if mode == "exact":
+        return model == impl
     if impl is None:
         return False
     if mode == "expargs":
@@ -915,7 +1016,17 @@ def _cmp_corr(name, model, impl, tol, mode):
 
 def correspondence(ctx):
     rng = ctx.rng
-    plan = [("train", ctx.budget(40, 500)), ("dyn", ctx.budget(15, 150)), ("dus", ctx.budget(15, 150)), ("vib", ctx.budget(15, 150))]
+    plan = [("train", ctx.budget(40, 300)), ("dyn", ctx.budget(15, 120)), ("dus", ctx.budget(15, 120)), ("vib", ctx.budget(15, 100)),
+            ("orb", ctx.budget(20, 150)), ("dim", ctx.budget(12, 60))]
+    # tie of the Sgate position-gain convention used by C20_vibronic_gain_*: x -> exp(-r) x
+    okg = True
+    for r in (0.3, -0.45, 1.1):
+        prog = sf.Program(1)
+        with prog.context as q:
+            sf.ops.Sgate(r) | q[0]
+        cv = _run_gauss(prog).cov()
+        okg = okg and _close(cv, (HBAR / 2) * np.diag([math.exp(-r) ** 2, math.exp(r) ** 2]), 1e-10)
+    ctx.obligation("tie:sgate-x-gain-is-exp(-r)", okg, "Sgate(r)|0> does not have cov = hbar/2 diag(exp(-2r), exp(2r))")
     cases = []
     for fam, k in plan:
         for _ in range(k):
@@ -937,7 +1048,7 @@ def correspondence(ctx):
     shard = 60
     for si in range(0, len(built), shard):
         part = built[si:si + shard]
-        lines = ["From Coq Require Import List PrimFloat ZArith.", "Import ListNotations.", "From SFV Require Import C20.Model C20.Exec.",
+        lines = ["From Coq Require Import List PrimFloat ZArith Bool.", "Import ListNotations.", "From SFV Require Import C20.Model C20.Exec.",
                  "Open Scope float_scope."]
         for _, term, _ in part:
             lines.append("Eval vm_compute in %s." % term)
@@ -978,8 +1089,8 @@ def search(ctx):
         ctx.case(case, nontrivial=nontrivial(case), bucket="corpus-" + case["family"])
         for sig, what in run_check(case):
             ctx.counterexample(sig, what, {"case": case})
-    plan = [("train", ctx.budget(60, 700)), ("sim", ctx.budget(25, 250)), ("dyn", ctx.budget(20, 200)), ("vib", ctx.budget(20, 200)),
-            ("dus", ctx.budget(25, 300)), ("marg", ctx.budget(20, 200)), ("bad", ctx.budget(16, 60))]
+    plan = [("train", ctx.budget(60, 450)), ("sim", ctx.budget(25, 200)), ("dyn", ctx.budget(20, 150)), ("vib", ctx.budget(20, 150)),
+            ("dus", ctx.budget(25, 300)), ("marg", ctx.budget(20, 150)), ("bad", ctx.budget(16, 60))]
     for fam, k in plan:
         for _ in range(k):
             case = GENS[fam](rng, big=not ctx.quick) if fam == "train" else GENS[fam](rng)
